@@ -89,6 +89,18 @@ Theorem c10_api_forwards : forall s c, args_ok c = true ->
 Proof. exact api_open. Qed.
 Print Assumptions c10_api_forwards.
 
+(* Batches are values: the batch a tick hands to its callback goroutine (and the hand-over of Drain) is fixed
+   when the handler runs; later ticks and calls -- arriving while slow callbacks of that batch are still
+   running -- leave it unchanged (outputs of a prefix are a prefix of the outputs), on the handler level and
+   on the exported API. *)
+Theorem c10_batches_independent :
+  (forall s ops1 ops2 s1 o1 s2 o, run s ops1 = Ok (s1, o1) -> run s (ops1 ++ ops2) = Ok (s2, o) ->
+     firstn (length o1) o = o1 /\ run s1 ops2 = Ok (s2, skipn (length o1) o)) /\
+  (forall w cs1 cs2 w1 o1 w2 o, api_run w cs1 = Ok (w1, o1) -> api_run w (cs1 ++ cs2) = Ok (w2, o) ->
+     firstn (length o1) o = o1 /\ api_run w1 cs2 = Ok (w2, skipn (length o1) o)).
+Proof. split; [exact batches_independent | exact api_batches_independent]. Qed.
+Print Assumptions c10_batches_independent.
+
 (* ---- non-vacuity ---- *)
 (* the two inputs of DESIGN section 7 D7 (N = 10, five ticks seen): `Set k 8; Move k 2` fires at the 2nd tick
    after the move and `Set k 3; Move k 17` at the 17th -- the repaired moveTask *)
